@@ -133,6 +133,16 @@ Definition pm_model (c : list Z * nat * bool * nat * list (list nat) * (Z * Z) *
                  which='iter'),
             dict(xs=[7, 3, 5, 9], threads=2, sort=True, chunksize=2, orders=[[1, 0], [1, 0]], a=1, b=0,
                  fails=[9], which='threading'),
+            # f returns exception objects as values
+            dict(xs=[7, 3, 5], threads=2, sort=True, chunksize=0, orders=[[1, 0, 2]], a=1, b=0, fails=[], which='iter',
+                 returned_errors=[3]),
+            dict(xs=[7, 3, 5], threads=3, sort=True, chunksize=2, orders=[[1, 0], [0]], a=1, b=0, fails=[], which='threading',
+                 returned_errors=[5, 7]),
+            # chunks smaller than the pool, later chunks ready at once, no sorting: order within chunks only
+            dict(xs=[0, 10, 20], threads=3, sort=False, chunksize=1, orders=[[0], [0], [0]], a=1, b=0, fails=[],
+                 which='threading', prerelease=True),
+            dict(xs=[0, 10, 20, 30, 40], threads=4, sort=False, chunksize=2, orders=[[1, 0], [0, 1], [0]], a=1, b=0, fails=[],
+                 which='threading', prerelease=True),
             # f raises StopIteration (a bare next() on an exhausted iterator inside f)
             dict(xs=[7, 3, 5], threads=2, sort=True, chunksize=1000, orders=[[0, 1, 2]], a=1, b=0,
                  fails=[3], which='threading', exc='StopIteration'),
@@ -157,7 +167,12 @@ Definition pm_model (c : list Z * nat * bool * nat * list (list nat) * (Z * Z) *
             if xs and rng.random() < 0.2:
                 fails = [rng.choice(xs)]
             sort = True if which == 'iter' else rng.random() < 0.75
-            out.append(dict(xs=xs, threads=threads, sort=sort, chunksize=chunksize, orders=orders,
+            extra = {}
+            if xs and not fails and rng.random() < 0.15:
+                extra['returned_errors'] = rng.sample(xs, min(len(xs), rng.choice([1, 2])))
+            if len(chunks) > 1 and threads > 1 and rng.random() < 0.3:
+                extra['prerelease'] = True
+            out.append(dict(extra, xs=xs, threads=threads, sort=sort, chunksize=chunksize, orders=orders,
                             a=rng.choice([1, 2, -3]), b=rng.randrange(-5, 6), fails=fails, which=which,
                             exc=rng.choice(sorted(EXC)) if fails else 'KeyError',
                             kind=rng.choice(['list', 'list', 'tuple', 'gen', 'iter', 'dict_keys'])))
@@ -165,6 +180,7 @@ Definition pm_model (c : list Z * nat * bool * nat * list (list nat) * (Z * Z) *
 
     def run_impl(self, case):
         xs, fails = case['xs'], set(case['fails'])
+        returned_errors = set(case.get('returned_errors', []))
         a, b = case['a'], case['b']
         chunks = chunks_of(xs, case['chunksize'])
         release = {x: threading.Event() for x in xs}
@@ -179,6 +195,8 @@ Definition pm_model (c : list Z * nat * bool * nat * list (list nat) * (Z * Z) *
             try:
                 if x in fails:
                     raise EXC[case.get('exc', 'KeyError')](x)
+                if x in returned_errors:
+                    return Custom(a * x + b)      # an exception object as an ordinary result (a validator's verdict)
                 return a * x + b
             finally:
                 done[x].set()
@@ -193,6 +211,11 @@ Definition pm_model (c : list Z * nat * bool * nat * list (list nat) * (Z * Z) *
                             return
                     time.sleep(0.0008)  # let the future's completion callback reach the event loop
 
+        if case.get('prerelease'):
+            # the elements of all chunks but the first may finish the moment they are submitted
+            for chunk in chunks[1:]:
+                for x in chunk:
+                    release[x].set()
         ctl = threading.Thread(target=controller, daemon=True)
         ctl.start()
         try:
@@ -203,7 +226,8 @@ Definition pm_model (c : list Z * nat * bool * nat * list (list nat) * (Z * Z) *
             else:
                 from taskchain.utils.iter import parallel_map
                 res = parallel_map(f, iterable_of(xs, case.get('kind', 'list')), threads=case['threads'])
-            out = dict(result=list(res))
+            out = dict(result=[r.args[0] if isinstance(r, Custom) else r for r in res],
+                       wrapped=sorted(x for x, r in zip(xs, res) if isinstance(r, Custom)) if case['sort'] else None)
         except tuple(EXC.values()) as e:
             out = dict(error=e.args[0], error_type=type(e).__name__)
         finally:
@@ -251,6 +275,8 @@ Definition pm_model (c : list Z * nat * bool * nat * list (list nat) * (Z * Z) *
         else:
             if self.canon(case, obs['result']) != self.canon(case, want):
                 return 'sort=False result is not a chunk-wise permutation of map f xs'
+        if case['sort'] and obs.get('wrapped') != sorted(set(case.get('returned_errors', [])) & set(xs)):
+            return f'the results that are exception objects are those of {obs.get("wrapped")}, f returned them for {case.get("returned_errors", [])}'
         if obs['calls'] != sorted(xs):
             return f'f was not called exactly once per element: calls={obs["calls"]}'
         return None
